@@ -62,3 +62,7 @@ def run(ctx):
     from ..engines import statepickle as RR
     RR.r8_one_shot_iterables_not_kept(ctx)
     ctx.floor("R8", 1)
+    from ..engines import jsonpairs as JP
+    JP.j11_pack_builders_carry_everything(ctx)
+    ctx.floor("J11", 6)
+    S.t6b_flat_keys_are_elements(ctx)
